@@ -14,6 +14,8 @@ CONSTANTS
     ReaderDone = TRUE
     AlertCloseOnErr = FALSE
     UdfStopAborts = FALSE
+    NWaiters = 0
+    WaitHoldsMu = TRUE
     HookNeedsTmLock = FALSE
 INVARIANTS
     TypeOK
